@@ -382,11 +382,181 @@ pub fn held_scenario(r: &mut Report, seed: u64) {
     }
 }
 
+/// Two different puts for one target from one node, the second submitted while the first is still in
+/// flight (same tick / during its lookup / during its store phase): two announce_peer calls with different
+/// ports, two signed announcements by different keys, a mutable item and its successor with cas = first seq.
+/// Whatever returned Ok must be served by at least one storing node afterwards (for the superseded mutable
+/// item only the superseding call is judged).
+pub fn overlap_held_scenario(r: &mut Report, seed: u64) {
+    use super::net::*;
+    use super::srv::{sign_announce, verify};
+    r.eval();
+    let mut rng = Rng::new(seed);
+    let w = World::with_cfg(seed, NetCfg { lat_min: 5 * MS, lat_max: 80 * MS, random_ties: true }, TraceLevel::Off);
+    let n = 1 + rng.usize(6);
+    let net = build_net(&w, n, 0, IpPlan::Private, false, &mut rng);
+    let writer = w.spawn(NodeSpec::client(Ipv4Addr::new(10, 200, 0, 9), &[net.boot])).expect("writer");
+    w.block_on(writer.adht.bootstrapped(), 120 * SEC);
+    let kind = rng.usize(3);
+    let phase = rng.usize(3);
+    let kinds = ["announce_peer", "announce_signed_peer", "mutable-superseded-by-cas"];
+    let phases = ["same-tick", "during-lookup", "during-store"];
+    let case = json!({"class":"overlapping-puts-held","seed":seed.to_string(),"servers":n,"kind":kinds[kind],"second_call":phases[phase]});
+    let s1 = SigningKey::from_bytes(&rng.array::<32>());
+    let s2 = SigningKey::from_bytes(&rng.array::<32>());
+    let ih = Id::from(rng.array::<20>());
+    let ts = w.unix_micros();
+    let (p1, p2) = (4000 + rng.usize(1000) as u16, 6000 + rng.usize(1000) as u16);
+    let seq0 = rng.below(100) as i64;
+    let (va, vb) = (rng.blob(1, 40), rng.blob(1, 40));
+    let (req1, req2) = match kind {
+        0 => (
+            PutRequestSpecific::AnnouncePeer(AnnouncePeerRequestArguments { info_hash: ih, port: p1, implied_port: None }),
+            PutRequestSpecific::AnnouncePeer(AnnouncePeerRequestArguments { info_hash: ih, port: p2, implied_port: None }),
+        ),
+        1 => {
+            let (g1, g2) = (sign_announce(&s1, ih.as_bytes(), ts), sign_announce(&s2, ih.as_bytes(), ts + 1));
+            (
+                PutRequestSpecific::AnnounceSignedPeer(AnnounceSignedPeerRequestArguments { info_hash: ih, t: ts, k: g1.k, sig: g1.sig }),
+                PutRequestSpecific::AnnounceSignedPeer(AnnounceSignedPeerRequestArguments { info_hash: ih, t: ts + 1, k: g2.k, sig: g2.sig }),
+            )
+        }
+        _ => (
+            PutRequestSpecific::PutMutable(PutMutableRequestArguments::from(MutableItem::new(&s1, &va, seq0, None), None)),
+            PutRequestSpecific::PutMutable(PutMutableRequestArguments::from(MutableItem::new(&s1, &vb, seq0 + 1, None), Some(seq0))),
+        ),
+    };
+    let target = *req1.target();
+    // store phase detection: the writer's first store request leaves
+    let xaddr = writer.addr;
+    let store_seen = std::sync::Arc::new(std::sync::atomic::AtomicBool::new(false));
+    let ss2 = store_seen.clone();
+    w.set_fault(Some(Box::new(move |info: &SendInfo| {
+        if info.from == xaddr {
+            if let Some(k) = Krpc::parse(info.bytes) {
+                if matches!(k.q.as_deref(), Some("put") | Some("announce_peer") | Some("announce_signed_peer")) {
+                    ss2.store(true, std::sync::atomic::Ordering::SeqCst);
+                }
+            }
+        }
+        None
+    })));
+    let rx1 = put_raw(&writer.dht, req1, None);
+    let end = w.now() + 60 * SEC;
+    match phase {
+        0 => {}
+        1 => {
+            w.run_for((10 + rng.below(60)) * MS);
+        }
+        _ => {
+            while !store_seen.load(std::sync::atomic::Ordering::SeqCst) && w.now() < end {
+                if !matches!(w.step_until(end), Step::Node(_) | Step::Raw(_)) {
+                    break;
+                }
+            }
+        }
+    }
+    let first_in_flight = rx1.is_empty() && snapshot(&w, &writer).map(|sn| sn.put_queries.contains(&target)).unwrap_or(phase == 0) || phase == 0;
+    let rx2 = put_raw(&writer.dht, req2, None);
+    let res1 = w.block_on(async move { rx1.recv_async().await }, 300 * SEC);
+    let res2 = w.block_on(async move { rx2.recv_async().await }, 300 * SEC);
+    w.set_fault(None);
+    w.run_for(2 * SEC);
+    let ok1 = matches!(res1, Some(Ok(Ok(_))));
+    let ok2 = matches!(res2, Some(Ok(Ok(_))));
+    let probe = w.raw(SocketAddrV4::new(Ipv4Addr::new(10, 200, 0, 77), 7777));
+    let mut tid = 0u32;
+    let mut ask = |w: &World, to: SocketAddrV4, build: &dyn Fn(&[u8]) -> Vec<u8>| -> Option<Krpc> {
+        tid += 1;
+        let t = tid.to_be_bytes();
+        while w.raw_recv(probe).is_some() {}
+        w.raw_send(probe, &build(&t), to);
+        let mut out = None;
+        w.run_until(2 * SEC, |w| {
+            while let Some((_, d)) = w.raw_recv(probe) {
+                if let Some(k) = Krpc::parse(&d.bytes) {
+                    if k.t == t {
+                        out = Some(k);
+                        return true;
+                    }
+                }
+            }
+            false
+        });
+        out
+    };
+    let id = [0x33u8; 20];
+    let (pk1, pk2) = (s1.verifying_key().to_bytes(), s2.verifying_key().to_bytes());
+    let mut served = [0usize; 2];
+    for sv in &net.nodes {
+        match kind {
+            0 => {
+                if let Some(k) = ask(&w, sv.addr, &|t| q_get_peers(t, &id, ih.as_bytes(), false)) {
+                    let peers: Vec<SocketAddrV4> = k.res("values").and_then(|v| v.as_list()).map(|l| l.iter().filter_map(|b| b.as_bytes()).filter(|b| b.len() == 6).map(parse_addr).collect()).unwrap_or_default();
+                    for (j, p) in [p1, p2].iter().enumerate() {
+                        if peers.contains(&SocketAddrV4::new(*writer.addr.ip(), *p)) {
+                            served[j] += 1;
+                        }
+                    }
+                }
+            }
+            1 => {
+                if let Some(k) = ask(&w, sv.addr, &|t| q_get_peers(t, &id, ih.as_bytes(), true)) {
+                    let entries: Vec<Vec<u8>> = k.res("peers").and_then(|v| v.as_list()).map(|l| l.iter().filter_map(|b| b.as_bytes()).filter(|b| b.len() == 104).map(|b| b.to_vec()).collect()).unwrap_or_default();
+                    for (j, pk) in [pk1, pk2].iter().enumerate() {
+                        if entries.iter().any(|e| e[..32] == pk[..]) {
+                            served[j] += 1;
+                        }
+                    }
+                }
+            }
+            _ => {
+                if let Some(k) = ask(&w, sv.addr, &|t| q_get(t, &id, target.as_bytes(), None)) {
+                    let seq = k.res("seq").and_then(|x| x.as_int());
+                    let okv = |v: &[u8], sq: i64| k.res_bytes("v") == Some(v) && seq == Some(sq as i128) && k.res_bytes("sig").map(|sig| verify(&pk1, &crate::sha1::mutable_signable(sq, v, None), sig)).unwrap_or(false);
+                    if okv(&va, seq0) {
+                        served[0] += 1;
+                    }
+                    if okv(&vb, seq0 + 1) {
+                        served[1] += 1;
+                    }
+                }
+            }
+        }
+    }
+    r.count("overlap_held_scenarios");
+    if first_in_flight {
+        r.count(&format!("overlap_held/second_call_while_first_in_flight/{}", kinds[kind]));
+        r.nontrivial(mix(seed, w.order_hash()));
+    }
+    let detail = json!({"first": format!("{:?}", res1.as_ref().map(|x| x.as_ref().map(|y| y.is_ok()))), "second": format!("{:?}", res2.as_ref().map(|x| x.as_ref().map(|y| y.is_ok()))), "servers_serving_first": served[0], "servers_serving_second": served[1], "first_in_flight_at_second_call": first_in_flight});
+    if res1.is_none() || res2.is_none() {
+        r.violation("overlap-held/did-not-complete", "a put did not complete", case.clone(), detail.clone());
+    }
+    if ok2 && served[1] == 0 {
+        r.violation(&format!("held/ok-but-no-node-serves-it/second-of-two-overlapping/{}/{}", kinds[kind], phases[phase]), "the second of two overlapping puts for one target returned Ok but no storing node serves what it carried", case.clone(), detail.clone());
+    }
+    if kind != 2 && ok1 && served[0] == 0 {
+        r.violation(&format!("held/ok-but-no-node-serves-it/first-of-two-overlapping/{}/{}", kinds[kind], phases[phase]), "the first of two overlapping puts for one target returned Ok but no storing node serves what it carried", case.clone(), detail);
+    }
+    drop(writer);
+    drop(net);
+    w.shutdown();
+    for (thread, loc, msg) in crate::take_panics() {
+        r.violation(&format!("panic/{}", loc.replace("/repo/", "")), &format!("thread {thread} panicked: {msg}"), case.clone(), json!({}));
+    }
+}
+
 pub fn run(a: &Args) -> Report {
     let mut r = Report::new("C08");
     if let Some(path) = &a.replay {
         let v: Value = serde_json::from_str(&std::fs::read_to_string(path).unwrap_or_default()).unwrap_or_default();
         let c = &v["case"];
+        if c["class"].as_str() == Some("overlapping-puts-held") {
+            let seed = c["seed"].as_str().and_then(|s| s.parse().ok()).unwrap_or(1);
+            super::guarded(&mut r, c.clone(), |r| overlap_held_scenario(r, seed));
+            return r;
+        }
         if c["class"].as_str() == Some("held-by-a-serving-node") {
             let seed = c["seed"].as_str().and_then(|s| s.parse().ok()).unwrap_or(1);
             super::guarded(&mut r, c.clone(), |r| held_scenario(r, seed));
@@ -415,6 +585,8 @@ pub fn run(a: &Args) -> Report {
         let seed = rng.u64();
         super::guarded(&mut r, json!({"class":"held-by-a-serving-node","seed":seed.to_string()}), |r| held_scenario(r, seed));
         r.count("held_scenarios");
+        let seed = rng.u64();
+        super::guarded(&mut r, json!({"class":"overlapping-puts-held","seed":seed.to_string()}), |r| overlap_held_scenario(r, seed));
     }
     // exhaustive assignments for small replica sets
     let max_n = if a.quick() { 4 } else { 5 };
